@@ -48,6 +48,9 @@ type fmtFacts struct {
 	leftAt    map[string]bool            // contexts whose GetStart() flows to getHiddenLeft
 	rightAt   map[string]bool            // contexts whose GetStop() flows to getHiddenRightAtSameLine
 	leftStop  map[string]bool            // contexts whose GetStop() flows to getHiddenLeft (closing-brace anchor)
+	selfLeft  map[string]bool            // left anchor taken on the visiting function's own ctx parameter: holds for every caller
+	callLeft  map[string]map[string]bool // function -> contexts it left-anchors on a child before handing it on
+	visitFrom map[string]map[string]bool // context -> functions that pass it to another formatter function
 	badAnchor []string
 }
 
@@ -217,7 +220,12 @@ func commentQueryFns(w *World) map[*ssa.Function][]queryFn {
 func collectFmtFacts(w *World, ctxs map[string]*CtxInfo) *fmtFacts {
 	queryFns := commentQueryFns(w)
 	ff := &fmtFacts{acc: map[string]bool{}, accAll: map[string]map[string]bool{}, getText: map[string]bool{}, children: map[string]map[string]bool{},
-		leftAt: map[string]bool{}, rightAt: map[string]bool{}, leftStop: map[string]bool{}}
+		leftAt: map[string]bool{}, rightAt: map[string]bool{}, leftStop: map[string]bool{},
+		selfLeft: map[string]bool{}, callLeft: map[string]map[string]bool{}, visitFrom: map[string]map[string]bool{}}
+	fmtSet := map[*ssa.Function]bool{}
+	for _, fn := range formatterFuncs(w) {
+		fmtSet[fn] = true
+	}
 	for _, fn := range formatterFuncs(w) {
 		handled := map[string]bool{}
 		// type tests in this function and in the helpers it hands tree nodes to (not other visitor methods)
@@ -290,6 +298,20 @@ func collectFmtFacts(w *World, ctxs map[string]*CtxInfo) *fmtFacts {
 					}
 				}
 			}
+			// a tree node handed to another formatter function
+			if f := cc.StaticCallee(); f != nil && fmtSet[f] && f != fn && len(queryFns[f]) == 0 {
+				for _, a := range cc.Args {
+					if grammarCtxName(a.Type()) == "" {
+						continue
+					}
+					for _, c := range w.possibleCtxs(fn, a, ctxs, 0) {
+						if ff.visitFrom[c] == nil {
+							ff.visitFrom[c] = map[string]bool{}
+						}
+						ff.visitFrom[c][fnKey(fn)] = true
+					}
+				}
+			}
 			// comment anchors (queries and their wrappers)
 			if f := cc.StaticCallee(); f != nil {
 				for _, q := range queryFns[f] {
@@ -319,6 +341,30 @@ func collectFmtFacts(w *World, ctxs map[string]*CtxInfo) *fmtFacts {
 						switch {
 						case qkind == "left" && which == "GetStart":
 							ff.leftAt[c] = true
+							base := stripIdentity(trecv)
+							for {
+								if ta, ok := base.(*ssa.TypeAssert); ok {
+									base = stripIdentity(ta.X)
+									continue
+								}
+								if fa, ok := base.(*ssa.FieldAddr); ok { // embedded BaseParserRuleContext
+									base = stripIdentity(fa.X)
+									continue
+								}
+								if ex, ok := base.(*ssa.Extract); ok {
+									base = stripIdentity(ex.Tuple)
+									continue
+								}
+								break
+							}
+							if _, isParam := base.(*ssa.Parameter); isParam {
+								ff.selfLeft[c] = true
+							} else {
+								if ff.callLeft[fnKey(fn)] == nil {
+									ff.callLeft[fnKey(fn)] = map[string]bool{}
+								}
+								ff.callLeft[fnKey(fn)][c] = true
+							}
 						case qkind == "left" && which == "GetStop":
 							ff.leftStop[c] = true
 						case qkind == "right" && which == "GetStop":
@@ -502,7 +548,18 @@ func runC09(w *World, r *Report) {
 		}
 		for _, c := range w.expandCtx(title(rule)+"Context", ctxs) {
 			// a metaDataDeclaration used as a field is anchored through its MetaField parent
-			if ff.leftAt[c] {
+			// on every path: the visiting function anchors its own node, or every function that hands the node on anchors it first
+			var unanchored []string
+			if ff.leftAt[c] && !ff.selfLeft[c] {
+				for _, from := range sortedBoolKeys(ff.visitFrom[c]) {
+					if !ff.callLeft[from][c] {
+						unanchored = append(unanchored, from)
+					}
+				}
+			}
+			if ff.leftAt[c] && len(unanchored) > 0 {
+				r.fail(ruleAnch, c+": own-line comment before it is kept", "internal/parser/packet_dsl_formattor.go", "the comment before this construct is only emitted by some of the functions that format it; "+strings.Join(unanchored, ", ")+" hand(s) the node on without asking for the comments in front of it: they are deleted there")
+			} else if ff.leftAt[c] {
 				r.pass(ruleAnch, c+": own-line comment before it is kept", "internal/parser/packet_dsl_formattor.go", "getHiddenLeft(ctx.GetStart())")
 			} else {
 				r.fail(ruleAnch, c+": own-line comment before it is kept", "internal/parser/packet_dsl_formattor.go", "no getHiddenLeft(ctx.GetStart()) for this construct: a `// comment` on the line(s) before it is only reachable through this token and is deleted")
@@ -742,6 +799,7 @@ func runC10(w *World, r *Report) {
 		}
 	}
 	r.floor(rulePos, 20)
+	c10SameLineAnchor(w, r, fns)
 	// the dsl text itself is not consulted after parsing
 	fmtFn := w.Parser.Func("FormatPacketDsl")
 	if fmtFn == nil {
@@ -1001,4 +1059,107 @@ func closureLineOnly(mc *ssa.MakeClosure, bound ssa.Value, depth int) bool {
 		}
 	}
 	return true
+}
+
+
+// c10SameLineAnchor: the one positional predicate the formatter may use is "this hidden comment is on the line of the token the hidden
+// tokens were asked for". The line it is compared with must therefore be the line of that very token - not of another token of the same
+// construct (its first token, say), which differs as soon as the construct spans lines.
+func c10SameLineAnchor(w *World, r *Report, fns []*ssa.Function) {
+	const rule = "C10/same-line-anchor"
+	qf := commentQueryFns(w)
+	sameTok := func(a, b ssa.Value) bool {
+		a, b = stripIdentity(a), stripIdentity(b)
+		if a == b {
+			return true
+		}
+		ca, ok1 := a.(*ssa.Call)
+		cb, ok2 := b.(*ssa.Call)
+		if !ok1 || !ok2 {
+			return false
+		}
+		// the same argument-less accessor on the same receiver (ctx.GetStop() written twice)
+		na, ra := callNameRecv(ca)
+		nb, rb := callNameRecv(cb)
+		return na != "" && na == nb && ra != nil && rb != nil && stripIdentity(ra) == stripIdentity(rb)
+	}
+	n := 0
+	for _, fn := range fns {
+		if fn.Parent() != nil {
+			continue // closures are judged with their parent
+		}
+		// anchors: tokens the right-hand hidden queries of this function are asked for
+		var anchors []ssa.Value
+		forEachInstr(fn, func(b *ssa.BasicBlock, ins ssa.Instruction) {
+			c, ok := ins.(ssa.CallInstruction)
+			if !ok || c.Common().StaticCallee() == nil {
+				return
+			}
+			f := c.Common().StaticCallee()
+			if f.Name() == "GetHiddenTokensToRight" && len(c.Common().Args) > 1 {
+				if idx, ok := c.Common().Args[1].(*ssa.Call); ok && idx.Call.IsInvoke() && idx.Call.Method.Name() == "GetTokenIndex" {
+					anchors = append(anchors, idx.Call.Value)
+				}
+			}
+			for _, q := range qf[f] {
+				if q.kind == "right" && q.param < len(c.Common().Args) {
+					anchors = append(anchors, c.Common().Args[q.param])
+				}
+			}
+		})
+		if len(anchors) == 0 {
+			continue
+		}
+		cnt := 0
+		for _, g := range append([]*ssa.Function{fn}, fn.AnonFuncs...) {
+			forEachInstr(g, func(b *ssa.BasicBlock, ins ssa.Instruction) {
+				call, ok := ins.(*ssa.Call)
+				if !ok || !call.Call.IsInvoke() || call.Call.Method.Name() != "GetLine" {
+					return
+				}
+				recv := stripIdentity(call.Call.Value)
+				// the hidden comment itself: an element of a token slice (query result, possibly handed to a helper) or a closure parameter
+				switch x := recv.(type) {
+				case *ssa.UnOp:
+					if _, ok := x.X.(*ssa.IndexAddr); ok {
+						return
+					}
+				case *ssa.Parameter:
+					if g != fn {
+						return // parameter of the predicate closure: the comment under test
+					}
+				}
+				n++
+				cnt++
+				key := fmt.Sprintf("%s same-line test #%d compares with the line of the token the query is anchored at", fnKey(fn), cnt)
+				ok = false
+				for _, a := range anchors {
+					if sameTok(recv, a) {
+						ok = true
+					}
+				}
+				if ok {
+					r.pass(rule, key, w.instrPos(ins), "")
+				} else {
+					r.fail(rule, key, w.instrPos(ins), "the comment's line is compared with the line of a token other than the one whose hidden tokens are examined: whether a trailing comment stays on its line then depends on how the construct is broken over lines")
+				}
+			})
+		}
+	}
+	if n == 0 {
+		r.fail(rule, "same-line test found", "internal/parser/packet_dsl_formattor.go", "no GetLine() comparison next to a right-hand hidden-token query found: trailing comments cannot be kept on their line")
+	}
+}
+
+func callNameRecv(c *ssa.Call) (string, ssa.Value) {
+	if c.Call.IsInvoke() {
+		if len(c.Call.Args) > 0 {
+			return "", nil
+		}
+		return c.Call.Method.Name(), c.Call.Value
+	}
+	if f := c.Call.StaticCallee(); f != nil && f.Signature.Recv() != nil && len(c.Call.Args) == 1 {
+		return f.Name(), c.Call.Args[0]
+	}
+	return "", nil
 }
